@@ -79,12 +79,13 @@ def plan(tier):
         p += [(f, 3, "plain") for f in bad_families()]
         p += [("main", 2, "asan"), ("split", 2, "asan")]
     else:
-        p = [("main", 4, "plain"), ("split", 4, "plain"), ("attrs", 4, "plain")]
+        # main contains the alphabets of files and attrs, so main d covers them to depth d
+        p = [("main", 4, "plain"), ("split", 4, "plain")]
         p += [(f, 4, "plain") for f in bad_families()]
         p += [("main", 3, "asan"), ("split", 3, "asan")]
         p += [(f, 2, "asan") for f in bad_families()]
         p += [(f, 5, "plain") for f in bad_families()]
-        p += [("split", 5, "plain"), ("files", 6, "plain"), ("main", 5, "plain")]
+        p += [("files", 6, "plain"), ("main", 5, "plain")]
     return p
 
 
@@ -271,7 +272,17 @@ def run(chk, tier, jobs, deadline):
         else:
             rows.append(pf)
     per_family = rows + list(agg.values())
-    chk.add_cov(states=tot["histories"], transitions=tot["steps"], traces_validated_against_impl=tot["histories"],
+    # states = distinct canonical cases = distinct (family, history) pairs: per family the deepest run counts once
+    deepest = {}
+    for pf in per_family:
+        if "depth_completed" in pf:
+            k = pf["family"]
+            if k not in deepest or pf["histories"] > deepest[k]:
+                deepest[k] = pf["histories"]
+    distinct = sum(deepest.values())
+    chk.add_cov(states=distinct, transitions=tot["steps"], traces_validated_against_impl=tot["histories"],
+                states_definition="distinct (family, history) pairs; executions also counts the re-runs at lower depth "
+                                  "and under ASan; transitions = operations executed and checked by the oracle",
                 executions=tot["histories"], histories=tot["histories"], operations_checked=tot["steps"],
                 connection_attempts=tot["conn_attempts"], connections_established=tot["conn_established"],
                 connections_refused_as_the_model_demands=tot["refused"],
